@@ -2,7 +2,7 @@
    hierarchical_clustering.py).  Each theorem is closed by a lemma of
    ProofsK.v / ProofsH.v; `Print Assumptions` follows each. *)
 From Coq Require Import List Bool ZArith QArith Lia.
-From NV.C14 Require Import Model ProofsK ModelH ProofsH ProofsC.
+From NV.C14 Require Import Model ProofsK ModelH ProofsH ProofsC ModelAL ProofsAL.
 Import ListNotations.
 
 (* ====================================================================== *)
@@ -307,3 +307,63 @@ Example kmeans_iterations_strictly_improve :
   Wk 1 [[0];[1];[2];[3];[6]] (kmeans true 1 2 [[0];[1];[2];[3];[6]] [0;1;0;0;0]%nat 2 0)
   < Wk 1 [[0];[1];[2];[3];[6]] (kmeans true 1 2 [[0];[1];[2];[3];[6]] [0;1;0;0;0]%nat 1 0).
 Proof. vm_compute. reflexivity. Qed.
+
+(* ====================================================================== *)
+(*  AVERAGE LINK  (ModelAL.v: fusion, hierarchical_clustering.py l.243-298) *)
+(* ====================================================================== *)
+(* (A1) fusion(K, pop, i, j, k), for every list of live rows in which k is fresh, i, j, k distinct and every
+   third node c: afterwards the total weight of the rows (k,c) is fi * w(i,c) + fj * w(j,c) with
+   fi = pop[i]/pop[k], fj = 1 - fi (a missing row counts 0), the same for (c,k); there is at most one row
+   (k,c) and at most one row (c,k) (double edges are summed), and exactly one when (i,c) or (j,c) existed. *)
+Theorem fusion_weight_is_population_weighted_average : forall pi pk i j k c es,
+  fresh k es -> i <> j -> i <> k -> j <> k -> c <> i -> c <> j -> c <> k ->
+  wsum (fusion pi pk i j k es) k c == fus_fi pi pk * wsum es i c + fus_fj pi pk * wsum es j c /\
+  wsum (fusion pi pk i j k es) c k == fus_fi pi pk * wsum es c i + fus_fj pi pk * wsum es c j /\
+  (npair (fusion pi pk i j k es) k c <= 1)%nat /\ (npair (fusion pi pk i j k es) c k <= 1)%nat /\
+  ((npair es i c + npair es j c >= 1)%nat -> npair (fusion pi pk i j k es) k c = 1%nat).
+Proof. exact fusion_weight_spec. Qed.
+Print Assumptions fusion_weight_is_population_weighted_average.
+
+(* (A2) the stated linkage: the population-weighted average of the mean similarities of I and of J to C is
+   the mean similarity of I ++ J to C, for every similarity function and all non-empty clusters. *)
+Theorem average_link_update_is_mean_similarity : forall A (sim : A -> A -> Q) (I J C : list A),
+  I <> [] -> J <> [] -> C <> [] ->
+  fus_fi (Z.of_nat (length I)) (Z.of_nat (length I + length J)) * mean_sim sim I C
+  + fus_fj (Z.of_nat (length I)) (Z.of_nat (length I + length J)) * mean_sim sim J C
+  == mean_sim sim (I ++ J) C.
+Proof. exact average_link_lance_williams. Qed.
+Print Assumptions average_link_update_is_mean_similarity.
+
+(* (A3) A1 + A2: one step of the invariant "the weight of a row is the mean similarity between the two
+   clusters it joins (pairs without an edge count 0)" of average_link_graph. *)
+Theorem fusion_keeps_mean_similarity : forall A (sim : A -> A -> Q) (I J C : list A) i j k c es,
+  I <> [] -> J <> [] -> C <> [] ->
+  fresh k es -> i <> j -> i <> k -> j <> k -> c <> i -> c <> j -> c <> k ->
+  wsum es i c == mean_sim sim I C -> wsum es j c == mean_sim sim J C ->
+  wsum (fusion (Z.of_nat (length I)) (Z.of_nat (length I + length J)) i j k es) k c == mean_sim sim (I ++ J) C.
+Proof. exact ProofsAL.fusion_keeps_mean_similarity. Qed.
+Print Assumptions fusion_keeps_mean_similarity.
+
+(* (A4) the averaged weight lies between the two weights (positive populations): a merge never creates a
+   similarity above the heaviest one it replaces - why the negated heights do not decrease child -> parent
+   when both clusters have a row to c. *)
+Theorem fusion_weight_between : forall pi pj wi wj, (0 < pi)%Z -> (0 < pj)%Z -> wi <= wj ->
+  wi <= fus_fi pi (pi + pj) * wi + fus_fj pi (pi + pj) * wj <= wj /\
+  wi <= fus_fi pi (pi + pj) * wj + fus_fj pi (pi + pj) * wi <= wj.
+Proof. exact ProofsAL.fusion_weight_between. Qed.
+Print Assumptions fusion_weight_between.
+
+(* non-vacuity: items 0,1 (populations 1 and 3) merged into 4 on a graph with third nodes 2, 3 and the edges
+   0-1 both ways; the hypotheses of A1 hold and the result is the one the implementation returns *)
+Definition al_es : list edge :=
+  [mke 0 2 3; mke 2 0 3; mke 1 2 1; mke 2 1 1; mke 0 3 5; mke 3 0 5; mke 0 1 8; mke 1 0 8].
+Example fusion_run_1 :
+  fresh 4 al_es /\
+  fusion_agrees 1 4 0 1 4 al_es [mke 4 2 (3#2); mke 2 4 (3#2); mke 4 3 (5#4); mke 3 4 (5#4); mke 4 4 3] = true /\
+  wsum (fusion 1 4 0 1 4 al_es) 4 2 == (1#4) * 3 + (3#4) * 1 /\
+  npair (fusion 1 4 0 1 4 al_es) 4 2 = 1%nat.
+Proof.
+  split; [|split; [|split]]; try (vm_compute; reflexivity).
+  intros e He. unfold al_es in He. cbn [In] in He.
+  repeat (destruct He as [He|He]; [subst e; cbn; split; discriminate|]). contradiction.
+Qed.
